@@ -130,6 +130,27 @@ func emitCorpus(dir string) {
 		round("19_role_binds_differ_plain_first.json",
 			&node{Name: "root", Children: []*node{shared("t0"), shared("t1", extra...)}}, a1)
 	}
+	// seeded C05-6: the template is reloaded under the same identifier with changed constraints and
+	// channels only (command, cpu, memory, static ports as before): what counts is what was loaded last
+	{
+		v1 := direct
+		v1.Cts = []cst{{A: "zone", V: "z1"}}
+		v1.Bind = []chn{{Name: "c1", Tcp: true}}
+		v2 := v1
+		v2.Cts = []cst{{A: "zone", V: "z2"}}
+		v2.Bind = []chn{{Name: "c1", Tcp: true}, {Name: "c4", Tcp: true}}
+		es = append(es, entry{"20_classcache_reload.json", "classcache", pureIn{CacheOps: []cacheOp{{Key: 0, Class: v1}, {Key: 1, Class: v1}, {Key: 0, Class: v2}}}})
+		one := func(cl classSpec) *node {
+			n := leaf("t0", nil, cl)
+			n.ClassKey = "s0"
+			return &node{Name: "root", Children: []*node{n}}
+		}
+		a1 := agent("h1", full, 4000, map[string]string{"zone": "z1"})
+		a2 := agent("h2", full, 4000, map[string]string{"zone": "z2"})
+		es = append(es, entry{"21_template_reloaded_between_rounds.json", "round", simIn{Mode: "round", Reload: true,
+			Tree: one(v2), Agents: []agentSpec{a1, a2},
+			Prelude: &simIn{Mode: "round", Tree: one(v1), Agents: []agentSpec{a1, a2}}}})
+	}
 	for _, e := range es {
 		doc := map[string]interface{}{"property": "C05", "cases": []map[string]interface{}{{"kind": e.kind, "input": e.in}}}
 		b, _ := json.MarshalIndent(doc, "", " ")
